@@ -66,6 +66,8 @@ class World:
         self.loop = vloop.VLoop(sched)
         asyncio.set_event_loop(self.loop)
         vloop.install([bpmod, dbmod, mpmod])
+        import aiorpcx
+        dbmod.sleep = aiorpcx.sleep      # RealIndex (run earlier in the same process) rebinds it
         self.gated_storage = gated_storage
         self.sessions = []
         self.tasks = {}
